@@ -924,6 +924,11 @@ static Token *skip_excess_element(Token *tok) {
 
 // string-initializer = string-literal
 static void string_initializer(Token **rest, Token *tok, Initializer *init) {
+  // A string literal can initialize only an array whose elements are as
+  // wide as the literal's own code units (C11 6.7.9p14, p15).
+  if (tok->ty->size != init->ty->base->size * tok->ty->array_len)
+    error_tok(tok, "array of inappropriate type initialized from string constant");
+
   if (init->is_flexible)
     *init = *new_initializer(array_of(init->ty->base, tok->ty->array_len), false);
 
